@@ -256,11 +256,6 @@ func (c *Ctx) finish(ci *coqInfo, evidencePath string) int {
 			}
 		}
 	}
-	if ci.Closed != len(ci.Theorems) {
-		rp := c.writeReplay("theorems", map[string]interface{}{"reason": "a property theorem no longer checks or depends on an axiom", "theorems": thNames})
-		fmt.Printf("VIOLATION property=%s replay=%s no-failing-input-found\n", c.prop, rp)
-		return 1
-	}
 	if oracleFails > 0 {
 		var first failure
 		for _, f := range c.failures {
@@ -272,6 +267,11 @@ func (c *Ctx) finish(ci *coqInfo, evidencePath string) int {
 		rp := c.writeReplay("oracle", first)
 		fmt.Printf("VIOLATION property=%s replay=%s\n", c.prop, rp)
 		fmt.Printf("  %s: %s\n", first.Check, first.Detail)
+		return 1
+	}
+	if ci.Closed != len(ci.Theorems) {
+		rp := c.writeReplay("theorems", map[string]interface{}{"reason": "a property theorem no longer checks or depends on an axiom", "theorems": thNames})
+		fmt.Printf("VIOLATION property=%s replay=%s no-failing-input-found\n", c.prop, rp)
 		return 1
 	}
 	if corrFails > 0 {
